@@ -31,11 +31,25 @@ def kern(spec, a, b):
 
 
 def make_cov(spec):
+  """spec["life"]: how the kernel object came to carry spec["hp"] - "fresh" (constructed with them), "reassigned" (constructed with other
+  values, then `.hyperparameters = hp`), "inplace" (constructed from an array that is then overwritten in place and assigned again - what an
+  in-place optimiser or the likelihood's setter does).  Whatever the history, the object must be the kernel with hyperparameters hp."""
   import libsigopt.compute.covariance as cv
+  hp = numpy.array(spec["hp"], dtype=float)
+  life = spec.get("life", "fresh")
+  first = hp if life == "fresh" else hp * numpy.array([1.7, 0.6, 2.3, 0.45, 1.3, 0.8, 3.1, 0.7, 1.9, 0.5, 2.7, 0.9, 1.1][: len(hp)] + [1.5] * max(0, len(hp) - 13))
+  arr = numpy.array(first, dtype=float)
   if spec["cls"] == "multitask":
     from libsigopt.compute.multitask_covariance import MultitaskTensorCovariance
-    return MultitaskTensorCovariance(numpy.array(spec["hp"]), getattr(cv, spec["phys"]), getattr(cv, spec["task"]))
-  return getattr(cv, spec["cls"])(numpy.array(spec["hp"]))
+    k = MultitaskTensorCovariance(arr, getattr(cv, spec["phys"]), getattr(cv, spec["task"]))
+  else:
+    k = getattr(cv, spec["cls"])(arr)
+  if life == "reassigned":
+    k.hyperparameters = numpy.array(hp, dtype=float)
+  elif life == "inplace":
+    arr[:] = hp
+    k.hyperparameters = arr
+  return k
 
 
 def make_gp(inp):
@@ -57,6 +71,7 @@ def gen_gp_input(rng, differentiable=False, well_conditioned=False, allow_multit
   else:
     ls = [rng.uniform(0.15, 0.5) if well_conditioned else 10 ** rng.uniform(-1, 0.5) for _ in range(dim)]
     cov = dict(cls=rng.choice(pool), hp=[10 ** rng.uniform(-0.5, 0.5)] + ls)
+  cov["life"] = rng.choice(["fresh", "fresh", "reassigned", "inplace"])
   pts = [[rng.uniform(0, 1) for _ in range(dim)] for _ in range(n)]
   if not well_conditioned:
     r = rng.random()
